@@ -22,7 +22,8 @@ RULE = ("seeded random record lists with ids repeated 1-5 times (adjacent and in
 REQUIRED = ["contract:CVR.merge_cvrs", "merge_checked", "merge_conflict_expected", "merged_with_pool_true",
             "merged_with_pool_false", "merged_phantom_mixed", "raire_checked", "raire_file_checked",
             "later_record_overrides_contest", "lists_whose_records_share_votes_objects",
-            "raire_lines_where_a_candidate_shares_its_name_with_the_contest_or_ballot"]
+            "raire_lines_where_a_candidate_shares_its_name_with_the_contest_or_ballot",
+            "raire_file_fields_holding_characters_some_routines_split_lines_on"]
 ASSUMPTIONS = ["tally-pool conflict = two different non-None labels for one id (None is 'unknown')"]
 N_CASES = {"quick": 80000, "thorough": 640000}
 
@@ -180,6 +181,12 @@ def gen_raire(rng):
         # the format is CSV: names may be quoted and contain commas or quotes
         for c in cons:
             cands[c] = [rng.choice(("Smith, John", "O\"Neil", "Lee", "Ng, A.", "van der Berg", "X Y")) + str(k) for k in range(len(cands[c]))]
+    elif rng.random() < 0.15:
+        # names holding characters that some text routines treat as line boundaries (form feed, group separator, the
+        # Unicode line separator) or a quoted line break: to the CSV format they are ordinary data inside a field
+        for c in cons:
+            cands[c] = [rng.choice(("Ann\x0cLee", "Bo\u2028Ek", "Cy\x1dDu", "Di\nFa", "Eve\x85G", "Lee")) + str(k) for k in range(len(cands[c]))]
+        cands[cons[0]][0] = "Ann\x0cLee0"
     if rng.random() < 0.1:
         # a contest whose identifier is a word the format itself uses
         word = rng.choice(("Contest", "winner", "informal"))
@@ -295,6 +302,8 @@ def run_case(case, rec):
                 return
             cvrs = res[0]
             rec.count("raire_file_checked")
+            if any(ch in fld for r in rows for fld in r for ch in "\x0c\u2028\x1d\n\x85"):
+                rec.count("raire_file_fields_holding_characters_some_routines_split_lines_on")
             if res[2] != len(cvrs):
                 rec.violation("c18.raire", "unique_id_count_wrong", {"reported": res[2], "len": len(cvrs)})
         else:
